@@ -386,9 +386,23 @@ struct Explorer {
     return op.targets.empty() ? DefaultTargets(v) : op.targets;
   }
 
+  /// Was the statement's discovered-dependency information (its depfile, or its record in the deps
+  /// log) there when the invocation started?  The known finding F2 is about information that exists
+  /// but is not examined; a statement whose information is *missing* must simply be rebuilt.
+  static bool DiscoveredDepsAvailable(const Stmt& s, const vfs::Disk& before) {
+    if (!s.deps.empty()) {
+      const vfs::File* f = before.Get(kDeps);
+      if (!f) return false;
+      lp::DepsLogModel m = lp::ParseDepsLog(f->data);
+      return m.deps.count(s.id) > 0;
+    }
+    if (!s.depfile.empty()) return before.Get(s.depfile) != nullptr;
+    return false;
+  }
+
   /// C01: after exit 0 every file in the closure of the targets equals the clean-build content.
   void CheckContent(const Op& op, const RunResult& r, const vfs::Disk& after, vector<Violation>* out,
-                    const char* prop = "C01") {
+                    const char* prop = "C01", const vfs::Disk* before = nullptr) {
     const Variant* v = VariantOf(sc, after);
     if (!v) {
       Violation x;
@@ -446,6 +460,7 @@ struct Explorer {
                 restat_nowrite = true;
           x.facts.set("restat_upstream_ran_without_rewriting", restat_nowrite);
         }
+        if (before) x.facts.set("discovered_deps_information_was_available", DiscoveredDepsAvailable(s, *before));
         x.facts.set("started", StartedList(r));
         out->push_back(x);
         break;
@@ -454,7 +469,8 @@ struct Explorer {
   }
 
   /// C02: the same invocation repeated immediately runs nothing.
-  void CheckConverge(const Op& op, const RunResult& first, const vfs::Disk& after, vector<Violation>* out) {
+  void CheckConverge(const Op& op, const RunResult& first, const vfs::Disk& after, vector<Violation>* out,
+                     const vfs::Disk* before = nullptr) {
     vfs::Disk d2 = after;
     RunConfig cfg;
     cfg.args = op.cfg.args;
@@ -497,6 +513,7 @@ struct Explorer {
               restat_nowrite = true;
         x.facts.set("restat_upstream_ran_without_rewriting_in_first_run", restat_nowrite);
         x.facts.set("rerun_ran_in_first_run", Started(first, s.id));
+        if (before) x.facts.set("discovered_deps_information_was_available_to_first_run", DiscoveredDepsAvailable(s, *before));
       }
     }
     out->push_back(x);
@@ -879,6 +896,7 @@ struct Explorer {
           if (c.spec.id() == v->stmts[u].id && v->stmts[u].restat && c.finished && c.status == 0 && !c.wrote)
             restat_nowrite = true;
       x.facts.set("restat_upstream_ran_without_rewriting", restat_nowrite);
+      x.facts.set("discovered_deps_information_was_available", DiscoveredDepsAvailable(s, cur));
       x.facts.set("exit", r.exit_code);
       out->push_back(x);
     }
@@ -1879,7 +1897,31 @@ struct Explorer {
   }
 
   /// C06: limits and liveness on one execution.
-  void CheckLimits(const Op& op, const RunResult& r, vector<Violation>* out) {
+  void CheckLimits(const Op& op, const RunResult& r, vector<Violation>* out, const vfs::Disk* after = nullptr) {
+    // "it always terminates, either having run everything needed or with an error": exit 0 of a real
+    // build (not a tool, not -n) while an output in the closure of the targets does not exist
+    if (after && r.exit_code == 0 && !r.hang && !r.crashed && !r.horizon && !op.tool && !op.dry_run) {
+      const Variant* v = VariantOf(sc, *after);
+      if (v) {
+        vector<string> roots = TargetsOf(op, *v);
+        set<int> stmts;
+        set<string> nodes;
+        Closure(*v, roots, &stmts, &nodes);
+        for (int si : stmts) {
+          const Stmt& s = v->stmts[si];
+          if (s.phony) continue;
+          for (auto& o : s.spec.outs) {
+            if (after->Get(o)) continue;
+            Violation x; x.prop = "C06"; x.clause = "finished-early";
+            x.detail = "ninja exited 0 although '" + o + "' (needed for the requested targets) does not exist: it stopped before "
+                       "having run everything needed, without an error";
+            x.facts.set("stmt", s.id);
+            out->push_back(x);
+            break;
+          }
+        }
+      }
+    }
     if (r.hang) {
       Violation x; x.prop = "C06"; x.clause = "hang";
       x.detail = "ninja waits forever: nothing is running and no event can arrive";
@@ -2091,15 +2133,15 @@ struct Explorer {
       if (!op.tool && !op.dry_run) {
         if (success && !edited_during) {
           size_t n0 = vs.size();
-          CheckContent(op, r, d, &vs);
+          CheckContent(op, r, d, &vs, "C01", &w.disk);
           content_bad = vs.size() > n0;
-          if (!content_bad && Want("C02")) CheckConverge(op, r, d, &vs);
+          if (!content_bad && Want("C02")) CheckConverge(op, r, d, &vs, &w.disk);
         }
         if (Want("C04") || Want("C05")) CheckOrder(r, &vs);
         if (Want("C16")) CheckRspLifecycle(r, d, &vs);
         if (Want("C05")) CheckFailures(op, r, w.disk, d, baseline.get(), &vs);
         if (Want("C05") && !op.cfg.faults.empty()) CheckRetry(op, r, w.disk, d, &vs);
-        if (Want("C06")) CheckLimits(op, r, &vs);
+        if (Want("C06")) CheckLimits(op, r, &vs, &d);
         if (Want("C17")) CheckCycle(op, r, w.disk, d, &vs);
         if (Want("C20")) CheckTranscript(op, r, &vs);
         if (twin_res && (Want("C10") || Want("C11"))) CheckTwin(op, r, w.disk, d, *twin_res, w.twin, twin_after, &vs);
@@ -2158,6 +2200,7 @@ struct Explorer {
             for (size_t si = 0; si < bv->stmts.size(); ++si) {
               const Stmt& bs = bv->stmts[si];
               if (bs.phony || (bs.deps.empty() && bs.depfile.empty()) || Started(r, bs.id)) continue;
+              if (!DiscoveredDepsAvailable(bs, w.disk)) continue;   // missing information is not the F2 shape
               set<int> up;
               Upstream(*bv, (int)si, &up);
               for (int u : up)
@@ -2286,6 +2329,11 @@ struct Explorer {
       if (op.kind == Op::kNinja) {
         RunResult r = RunNinja(&w0.disk, op.cfg, {});
         st.invocations++;
+        if (!op.expect_error && r.out.find("ninja: error: build.ninja:") != string::npos) {
+          // a scenario generator wrote a manifest ninja does not accept: not a verdict about ninja
+          fprintf(stderr, "HARNESS ERROR: initial build of %s: %s\n", sc.name.c_str(), r.out.c_str());
+          exit(2);
+        }
         w0.hist.push_back({opi, r.choices});
         if (!sc.twin_variants.empty()) { RunNinja(&w0.twin, op.cfg, {}); st.invocations++; }
       } else {
@@ -2426,8 +2474,8 @@ struct Explorer {
         if (!op.tool && !op.dry_run) {
           if (success && op.cfg.edits_during.empty()) {
             size_t n0 = vs.size();
-            CheckContent(op, r, w.disk, &vs);
-            if (vs.size() == n0) CheckConverge(op, r, w.disk, &vs);
+            CheckContent(op, r, w.disk, &vs, "C01", &before);
+            if (vs.size() == n0) CheckConverge(op, r, w.disk, &vs, &before);
           }
           CheckOrder(r, &vs);
           CheckRspLifecycle(r, w.disk, &vs);
